@@ -248,6 +248,14 @@ func c20Run(p *Prog, r *Report) {
 	}
 	r.Check(sameLoad(stripIface(stc.Call.Args[0]), d) && errv(stc.Call.Args[2]), "D2-status", fa.key+":status-args", p.Pos(stc.Pos()), "StatusFromErr(d, _, err of this Scan)", "the status is not built from the running detector and the error of its own Scan call")
 	fa.noPath("D2-status", "status-on-every-path", pointOf(sc), firstInstrOf(hdr), func(in ssa.Instruction) bool {
+		if st, ok := in.(*ssa.Store); ok {
+			// status[i] = …: a pre-sized list filled at the loop's own position
+			if ia, isIA := st.Addr.(*ssa.IndexAddr); isIA && st.Val == ssa.Value(stc) {
+				_, full := fullScanElement(ia)
+				return full || isLoopCursor(ia.Index)
+			}
+			return false
+		}
 		c, ok := in.(*ssa.Call)
 		return ok && isCallTo(c, "builtin", "", "append") && derivesFromSliceElem(c.Call.Args[1], func(v ssa.Value) bool { return v == ssa.Value(stc) })
 	}, nil, "a status entry is appended in every iteration", "a detector can finish an iteration without a status entry (e.g. only on error)")
@@ -520,8 +528,11 @@ func c20Index(p *Prog, r *Report) {
 	})
 	okGS := len(lks) == 2 && loadsField(lks[0].X, "PackageIndex", "pkgMap") && lks[0].Index == ssa.Value(gs.Params[2]) && lks[1].Index == ssa.Value(gs.Params[1])
 	if okGS {
-		if ex, ok := lks[1].X.(*ssa.Extract); !ok || ex.Tuple != ssa.Value(lks[0]) {
-			okGS = false
+		// the second lookup is in the map the first one returned (comma-ok form or chained indexing)
+		if ex, ok := lks[1].X.(*ssa.Extract); ok {
+			okGS = ex.Tuple == ssa.Value(lks[0])
+		} else {
+			okGS = lks[1].X == ssa.Value(lks[0])
 		}
 	}
 	r.Check(okGS, "D4-index-key", fnKey(gs)+":lookup", p.Pos(gs.Pos()), "pkgMap[pkgType][name]", "GetSpecific does not look up [type][name] in the order New stores them")
